@@ -7,10 +7,14 @@ import (
 	"errors"
 	"fmt"
 	"io"
+	"math"
 	"sync"
 )
 
-var errSourceNotIPv4 = errors.New("rtpdump: source is not an IPv4 address")
+var (
+	errSourceNotIPv4 = errors.New("rtpdump: source is not an IPv4 address")
+	errStartRange    = errors.New("rtpdump: start time does not fit 32 bits of seconds")
+)
 
 // Writer writes the RTPDump file format.
 type Writer struct {
@@ -24,6 +28,9 @@ func NewWriter(w io.Writer, hdr Header) (*Writer, error) {
 	source := hdr.Source.To4()
 	if source == nil {
 		return nil, errSourceNotIPv4
+	}
+	if sec := hdr.Start.Unix(); sec < 0 || sec > math.MaxUint32 {
+		return nil, errStartRange
 	}
 
 	preamble := fmt.Sprintf(
